@@ -642,42 +642,65 @@ impl C04 {
                 return Err(Failure { signature: "C04/graph/oracle-unexpected".into(), message: format!("oracle rejected for another reason: {e:?}") });
             }
         }
-        // drive every iteration order
+        // drive every iteration order (on a helper thread: "no hang" is part of the statement)
         let total = factorial(n);
-        let mut seen: BTreeSet<usize> = BTreeSet::new();
         let cap = 40_000usize;
-        let mut rebuilds = 0usize;
-        while seen.len() < total && rebuilds < cap {
-            rebuilds += 1;
-            let old = std::mem::take(&mut inst.decision_variable_dependency);
-            inst.decision_variable_dependency = old.into_iter().collect();
-            let order: Vec<u64> = inst.decision_variable_dependency.keys().copied().collect();
-            let rank = perm_index(&order);
-            if !seen.insert(rank) {
-                continue;
+        let (inst_t, state_t, m_t, deps_t) = (inst.clone(), state.clone(), m.clone(), deps.clone());
+        let outcome = crate::driver::run_with_timeout(30, move || -> (PResult, usize) {
+            let mut inst = inst_t;
+            let state = state_t;
+            let m = m_t;
+            let deps = deps_t;
+            let mut seen: BTreeSet<usize> = BTreeSet::new();
+            let mut rebuilds = 0usize;
+            while seen.len() < total && rebuilds < cap {
+                rebuilds += 1;
+                let old = std::mem::take(&mut inst.decision_variable_dependency);
+                inst.decision_variable_dependency = old.into_iter().collect();
+                let order: Vec<u64> = inst.decision_variable_dependency.keys().copied().collect();
+                let rank = perm_index(&order);
+                if !seen.insert(rank) {
+                    continue;
+                }
+                let r = inst.evaluate(&state);
+                match (&m, r) {
+                    (Err(_), Ok((sol, _))) => {
+                        return (
+                            fail(
+                                "C04/graph/cyclic-or-dangling-accepted",
+                                format!("evaluate returned a solution although dependencies are cyclic or refer to ids without value (iteration order {order:?}): deps {deps:?}, state {:?}, reported state {:?}", sorted_state(&state), sol.state.map(|s| sorted_state(&s))),
+                            ),
+                            seen.len(),
+                        );
+                    }
+                    (Err(_), Err(_)) => {}
+                    (Ok(_), Err(e)) => {
+                        return (fail("C04/graph/acyclic-rejected", format!("evaluate failed ({e:#}) for an acyclic, closed dependency graph under iteration order {order:?}: deps {deps:?}, state {:?}", sorted_state(&state))), seen.len());
+                    }
+                    (Ok(ms), Ok((sol, _))) => {
+                        let o = CmpOpts { check_used_ids: false, ..CmpOpts::default() };
+                        if let Err(mut f) = compare_solution("C04/graph/solution", &sol, ms, &o) {
+                            f.message = format!("{} (iteration order {order:?})\n deps {deps:?}\n state {:?}", f.message, sorted_state(&state));
+                            return (Err(f), seen.len());
+                        }
+                    }
+                }
             }
-            let r = inst.evaluate(&state);
-            match (&m, r) {
-                (Err(_), Ok((sol, _))) => {
-                    return fail(
-                        "C04/graph/cyclic-or-dangling-accepted",
-                        format!("evaluate returned a solution although dependencies are cyclic or refer to ids without value (iteration order {order:?}): deps {deps:?}, state {:?}, reported state {:?}", sorted_state(&state), sol.state.map(|s| sorted_state(&s))),
-                    );
-                }
-                (Err(_), Err(_)) => {}
-                (Ok(_), Err(e)) => {
-                    return fail("C04/graph/acyclic-rejected", format!("evaluate failed ({e:#}) for an acyclic, closed dependency graph under iteration order {order:?}: deps {deps:?}, state {:?}", sorted_state(&state)));
-                }
-                (Ok(ms), Ok((sol, _))) => {
-                    let o = CmpOpts { check_used_ids: false, ..CmpOpts::default() };
-                    compare_solution("C04/graph/solution", &sol, ms, &o).map_err(|mut f| {
-                        f.message = format!("{} (iteration order {order:?})\n deps {deps:?}\n state {:?}", f.message, sorted_state(&state));
-                        f
-                    })?;
-                }
+            (Ok(()), seen.len())
+        });
+        let seen_len = match outcome {
+            None => {
+                return fail(
+                    "C04/graph/hang",
+                    format!("evaluate did not return within 30 s (normal cost: microseconds) for dependencies {deps:?} at state {:?}; cyclic or dangling dependencies must fail cleanly", sorted_state(&state)),
+                );
             }
-        }
-        if seen.len() == total {
+            Some((r, k)) => {
+                r?;
+                k
+            }
+        };
+        if seen_len == total {
             ctx.label("all-orders-seen");
         } else {
             ctx.label("orders-incomplete");
